@@ -9,6 +9,7 @@ import ZapVerif.Model.TransEscapeX
 import ZapVerif.Model.TransCEX
 import ZapVerif.Model.TransCEAddX
 import ZapVerif.Model.TransCoresX
+import ZapVerif.Model.TransLoggerX
 import ZapVerif.Gen.TransProbe
 /-! `zvdrv CTR`: the interpreter side of the translator's differential test.  An op names a generated table and a
     function, gives arguments and receiver fields; the handler runs the GENERATED term in the GoMini interpreter
@@ -62,6 +63,18 @@ def coresPar (e : Env) : ZapVerif.TransCores.Par :=
       | .list (.int l :: _) => if cen c l then ZapVerif.TransCores.addCore ce c else ce
       | _ => ce }
 
+/-- the parameters of the logger context (harness/cmd/zvh/trans_logger.go): the core of the sugar guards is the
+    pseudo-field `#core` -/
+def loggerPar (e : Env) : ZapVerif.TransLogger.Par :=
+  let cen : Val → Int → Bool := fun c l => (coreId c + l) % 2 == 0
+  let sugarCore : Val := (e.get "#core").getD (.list [])
+  { cen := fun c l => match c with | .list [] => cen sugarCore l | _ => cen c l,
+    chk := fun c ent => match ent with
+      | .list [_, _, .int l, _] => if cen c l then some [c] else none
+      | _ => none,
+    now := fun c => c,
+    ann := fun ce _ => ce }
+
 def tables : List (String × (Env → Ctx)) := [
   ("TransProbe", fun _ => { ext := fun _ _ => none, funs := ZapVerif.Gen.TransProbe.funs }),
   ("TransJsonSep", fun _ => ZapVerif.TransJsonSep.X),
@@ -71,6 +84,7 @@ def tables : List (String × (Env → Ctx)) := [
   ("TransEscape", fun _ => ZapVerif.TransEscape.X),
   ("TransCE", fun _ => ZapVerif.TransCE.X),
   ("TransCEAdd", fun _ => ZapVerif.TransCEAdd.X),
+  ("TransLogger", fun e => ZapVerif.TransLogger.X (loggerPar e)),
   ("TransCores", fun e => ZapVerif.TransCores.X (coresPar e)),
   ("TransZio", fun e => ZapVerif.TransZio.X (match e.get "#en" with | some (.bool b) => b | _ => true))
 ]
